@@ -7,17 +7,18 @@ ID = "C12"
 MODNAME = "c12"
 RULE = ("(a) point cases: one random domain [a,b] and range [r0,r1] (magnitudes 1e-6..1e9, both orientations, spans >= 1e-6 of (plus a narrow family: relative width down to a few ulps, queries in and near the interval) "
         "the magnitude, plus a few degenerate ones) with 8 query points each (the end points, inside, far outside), scale and "
-        "invert, clamped and unclamped; (b) history cases: 6..28 random operations (new/domain/range/clamp/nice/copy, caller-shared "
-        "range lists) over a pool of up to four scales and their copies, every observable (domain, range, clamp, s(x), s.invert(y)) "
-        "of every scale compared after every step.  Non-trivial = a point case with a reversed or clamped-outside query / a history "
-        "with a copy followed by a nice() or domain() on the copy or the original; distinct by input.")
+        "invert, clamped and unclamped; (b) history cases: 6..28 random operations (constructor with default or caller-given lists, "
+        "domain/range/clamp/nice/copy; range() and the constructor are handed caller lists shared between scales AND the very list "
+        "objects other scales return from domain()/range()) over a pool of up to eight scales, every observable (domain, range, "
+        "clamp, s(x), s.invert(y)) of every scale compared after every step.  Non-trivial = a point case with a reversed or "
+        "clamped-outside query / a history with a copy or a shared list followed by a nice() or domain(); distinct by input.")
 EXPLANATION = ("Theorems are about coq/Scale/Linear.v (all rational domains, ranges, queries) and the heap machine "
                "coq/Scale/ScaleState.v (all operation lists); the tie checks that labella/scale.py LinearScale computes the same "
                "values (relative tolerance 1e-9 on continuous outputs, flags exactly) point-wise and after every step of random "
                "histories.  nice() inside histories is only issued where the tick step is an integer (then the double arithmetic "
                "of floor/ceil is exact); its general numerics are tied by C14.")
 CASE_TIMEOUT = 20
-# the kernel-checked record of the repaired defect (old aliasing copy) stays compiled
+# the kernel-checked record of the repaired defects (old aliasing copy, old in-place nice) stays compiled
 EXTRA_TARGETS = ["History/ScaleOld.vo"]
 EPS = F(1, 10 ** 9)
 
@@ -40,37 +41,76 @@ def _obs(s, xs, ys):
             "e": [float(s(d[0])), float(s(d[1]))]}
 
 
-def _play(ops, xs, ys, skip=None, upto=None):
-    """Runs a history.  skip(i, op) -> True drops the operation (replays)."""
+def _ids(ops):
+    """per op: (number of scales, number of list cells) existing before it.
+    Cells are numbered in allocation order, exactly as coq/Scale/ScaleState.v
+    does: New 2 (domain, range), Alloc 1, Domain 1, Nice 1, Copy 2."""
+    nsc = ncell = 0
+    ids = []
+    for op in ops:
+        ids.append((nsc, ncell))
+        k = op[0]
+        if k in (0, 6):
+            nsc += 1
+            ncell += 2
+        elif k == 7:
+            nsc += 1
+        elif k in (1, 2, 5):
+            ncell += 1
+    return ids
+
+
+def _play(ops, xs, ys, skip=frozenset(), only=None):
+    """Runs a history on real LinearScale objects.  `cells` holds the actual
+    list OBJECTS in allocation order, so that range()/the constructor are
+    handed the very objects (a caller's list, or a list another scale returned
+    from domain()/range()).  Operations whose index is in `skip` are left out
+    (replays) but keep the numbering of scales and cells."""
     from labella.scale import LinearScale
     scales = []
     cells = []
     steps = []
     for i, op in enumerate(ops):
-        if skip is not None and skip(i, op):
-            # creations are never skipped, so ids stay aligned
+        k = op[0]
+        if i in skip:
+            if k in (2, 5):
+                cells.append(None)
+            elif k == 7:
+                scales.append(LinearScale())
             steps.append(None)
             continue
-        k = op[0]
         if k == 0:
             s = LinearScale()
             scales.append(s)
-            cells.append(s.range())
+            cells += [s.domain(), s.range()]
         elif k == 1:
             cells.append([op[1], op[2]])
         elif k == 2:
-            scales[op[1]].domain([op[2], op[3]])
+            s = scales[op[1]]
+            s.domain([op[2], op[3]])
+            cells.append(s.domain())
         elif k == 3:
             scales[op[1]].range(cells[op[2]])
         elif k == 4:
             scales[op[1]].clamp(bool(op[2]))
         elif k == 5:
-            scales[op[1]].nice(op[2])
+            s = scales[op[1]]
+            s.nice(op[2])
+            cells.append(s.domain())
         elif k == 6:
             c = scales[op[1]].copy()
             scales.append(c)
-            cells.append(c.range())
-        steps.append([_obs(s, xs, ys) for s in scales])
+            cells += [c.domain(), c.range()]
+        elif k == 7:
+            scales.append(LinearScale(cells[op[1]], cells[op[2]]))
+        elif k == 8:
+            scales[op[1]].range(scales[op[2]].domain())     # the getter's own list object
+        elif k == 9:
+            scales[op[1]].range(scales[op[2]].range())
+        if only is None:
+            steps.append([_obs(s, xs, ys) for s in scales])
+        else:
+            steps.append(_obs(scales[only], xs, ys) if only < len(scales) else None)
     return steps
 
 
@@ -89,41 +129,51 @@ def impl(py):
     # copy independence, as the property words it: replay the history without
     # the other scale's later operations; the remaining one must not notice
     replays = []
-    nsc = 0
-    ncell = 0
-    ids = []            # per op: (number of scales, number of cells) before it
-    for op in ops:
-        ids.append((nsc, ncell))
-        if op[0] in (0, 6):
-            nsc += 1
-            ncell += 1
-        elif op[0] == 1:
-            ncell += 1
+    ids = _ids(ops)
     for i, op in enumerate(ops):
         if op[0] == 6 and len(replays) < 6:
             orig, cp = op[1], ids[i][0]
             for keep, drop in ((orig, cp), (cp, orig)):
                 # Scales that legitimately differ in the replay: `drop`, later
-                # copies of it, and scales the CALLER hands one of their range
-                # lists to ("share nothing unless the caller passes them the
-                # same objects").  If `keep` becomes one of them the replay
-                # says nothing and is left out.
-                diff_sc, diff_cells = {drop}, set()
+                # copies of it, and scales the CALLER hands one of their lists
+                # to ("share nothing unless the caller passes them the same
+                # objects").  Their operations are left out too.  If `keep`
+                # becomes one of them the replay says nothing and is left out.
+                diff_sc, diff_cells, skip = {drop}, set(), set()
                 for j in range(i + 1, len(ops)):
                     o = ops[j]
-                    if o[0] == 6 and o[1] in diff_sc:
-                        diff_sc.add(ids[j][0])
-                        diff_cells.add(ids[j][1])
-                    elif o[0] == 3 and o[2] in diff_cells:
-                        diff_sc.add(o[1])
+                    k = o[0]
+                    nsc, ncell = ids[j]
+                    if k == 6:
+                        if o[1] in diff_sc:
+                            diff_sc.add(nsc)
+                            diff_cells.update((ncell, ncell + 1))
+                    elif k == 7:
+                        if o[1] in diff_cells or o[2] in diff_cells:
+                            diff_sc.add(nsc)
+                            skip.add(j)
+                    elif k in (2, 5):
+                        if o[1] in diff_sc:
+                            diff_cells.add(ncell)
+                            skip.add(j)
+                    elif k == 3:
+                        if o[2] in diff_cells:
+                            diff_sc.add(o[1])
+                        if o[1] in diff_sc:
+                            skip.add(j)
+                    elif k in (8, 9):
+                        if o[2] in diff_sc:
+                            diff_sc.add(o[1])
+                        if o[1] in diff_sc:
+                            skip.add(j)
+                    elif k == 4:
+                        if o[1] in diff_sc:
+                            skip.add(j)
                 if keep in diff_sc:
                     continue
-
-                def skip(j, o, i=i, drop=drop):
-                    return j > i and o[0] in (2, 3, 4, 5) and o[1] == drop
-                rs = _play(ops, xs, ys, skip)
+                rs = _play(ops, xs, ys, frozenset(skip), only=keep)
                 last = [st for st in rs if st is not None][-1]
-                replays.append({"copy_step": i, "keep": keep, "drop": drop, "obs": last[keep]})
+                replays.append({"copy_step": i, "keep": keep, "drop": drop, "obs": last})
     return {"steps": steps, "replays": replays}
 
 
@@ -147,7 +197,9 @@ def _enc_op(op):
         return [4, op[1], 1 if op[2] else 0]
     if k == 5:
         return [5, op[1], op[2]]
-    return [6, op[1]]
+    if k == 6:
+        return [6, op[1]]
+    return [k, op[1], op[2]]          # 7 NewWith d r | 8 RangeOfDomain s t | 9 RangeOfRange s t
 
 
 def rebuild(c):
@@ -239,8 +291,15 @@ def gen(rng, tier):
             return [float(v) for v in (p, q, p + sp * rng.random(), p + sp * rng.random(), p + sp / 2,
                                        p - sp * rng.random(), q + sp * 2 * rng.random(), p + sp * 0.25)]
         yield _pt_case(a, b, r0, r1, near(a, b), near(r0, r1), "pt-narrow")
-    yield _hist_case([[0], [2, 0, 0.3, 9.7], [1, 0.0, 100.0], [3, 0, 1], [6, 0], [5, 1, 10], [5, 0, 10]],
+    # cells: New -> 0,1; Domain -> 2; Alloc -> 3; Copy -> 4,5; ...
+    yield _hist_case([[0], [2, 0, 0.3, 9.7], [1, 0.0, 100.0], [3, 0, 3], [6, 0], [5, 1, 10], [5, 0, 10]],
                      [0.0, 10.0, 0.3, 9.7], [0.0, 100.0, 50.0], "hist-A6")
+    # audit B6: the copy holds the original's own domain list as its range, then the original is made nice
+    yield _hist_case([[0], [2, 0, 0.3, 9.7], [1, 0.0, 100.0], [3, 0, 3], [6, 0], [8, 1, 0], [5, 0, 10]],
+                     [0.0, 10.0, 0.3, 9.7], [0.0, 100.0, 0.3, 9.7], "hist-B6")
+    # a list given to the constructor, shared by two scales, one of them made nice
+    yield _hist_case([[1, 0.3, 9.7], [1, 0.0, 100.0], [7, 0, 1], [7, 0, 1], [5, 0, 10], [9, 1, 0], [8, 1, 0]],
+                     [0.0, 10.0, 0.3, 9.7], [0.0, 100.0, 0.3, 9.7], "hist-ctor")
     for _ in range(n_h):
         yield _gen_hist(rng)
 
@@ -251,28 +310,44 @@ def _hist_case(ops, xs, ys, kind="hist"):
 
 def _gen_hist(rng, focus=False):
     ops = [[0]]
-    spans = [1.0]          # lower bound on each scale's current domain span
-    ncells = 1
+    cspan = [1.0, 1.0]     # per list cell: a lower bound on |b - a| of its contents
+    domc, rngc = [0], [1]  # per scale: the cells it currently points to
     nsteps = rng.randrange(6, 29)
     allx, ally = [0.0, 1.0], [0.0, 1.0]
-    copied = False
+    shared = False
     while len(ops) < nsteps:
         t = rng.random()
-        s = rng.randrange(len(spans))
-        if focus and copied and rng.random() < 0.5:
-            s = rng.choice([0, len(spans) - 1])
-        if t < 0.08 and len(spans) < 4:
-            ops.append([0])
-            spans.append(1.0)
-            ncells += 1
-        elif t < 0.16:
+        n = len(domc)
+        s = rng.randrange(n)
+        if focus and shared and rng.random() < 0.5:
+            s = rng.choice([0, n - 1])
+        if t < 0.06:
+            if n < 8:
+                ops.append([0])
+                domc.append(len(cspan))
+                rngc.append(len(cspan) + 1)
+                cspan += [1.0, 1.0]
+        elif t < 0.11:
+            if n < 8:
+                # constructor with explicit lists: any existing list objects
+                d = rng.choice(domc + [rng.randrange(len(cspan))])
+                r = rng.randrange(len(cspan))
+                ops.append([7, d, r])
+                domc.append(d)
+                rngc.append(r)
+                shared = True
+        elif t < 0.19:
             r0, r1 = _pair(rng)
+            if rng.random() < 0.5:     # usable as a domain of an integer-step nice()
+                r0 = float(round(_mag(rng, 1, 9), rng.choice([0, 1, 3])))
+                r1 = r0 + rng.choice([-1, 1]) * float(round(10 ** rng.uniform(0.5, 6), rng.choice([0, 2])))
             if rng.random() < 0.05:
                 r1 = r0
             ops.append([1, r0, r1])
-            ncells += 1
+            cspan.append(abs(r1 - r0))
             ally += [r0, r1]
-        elif t < 0.38:
+            allx += [r0, r1]
+        elif t < 0.37:
             if rng.random() < 0.6:      # integer regime: spans large enough for nice()
                 a = float(round(_mag(rng, 1, 9), rng.choice([0, 1, 3])))
                 b = a + rng.choice([-1, 1]) * float(round(10 ** rng.uniform(0.5, 6), rng.choice([0, 2])))
@@ -281,23 +356,41 @@ def _gen_hist(rng, focus=False):
             if rng.random() < 0.03:
                 b = a
             ops.append([2, s, a, b])
-            spans[s] = abs(b - a)
+            domc[s] = len(cspan)
+            cspan.append(abs(b - a))
             allx += [a, b]
-        elif t < 0.52:
-            ops.append([3, s, rng.randrange(ncells)])
-        elif t < 0.62:
+            ally += [a, b]
+        elif t < 0.46:
+            c = rng.randrange(len(cspan))          # ANY existing list
+            ops.append([3, s, c])
+            rngc[s] = c
+        elif t < 0.54:
+            u = rng.randrange(n)
+            ops.append([8, s, u])                  # s.range(u.domain())
+            rngc[s] = domc[u]
+            shared = True
+        elif t < 0.58:
+            u = rng.randrange(n)
+            ops.append([9, s, u])                  # s.range(u.range())
+            rngc[s] = rngc[u]
+            shared = True
+        elif t < 0.66:
             ops.append([4, s, rng.random() < 0.6])
-        elif t < 0.82:
-            if spans[s] >= 2.0:
-                mmax = int(min(100, spans[s] / 2))
+        elif t < 0.86:
+            sp = cspan[domc[s]]
+            if sp >= 2.0:
+                mmax = int(min(100, sp / 2))
                 m = 10 if rng.random() < 0.3 else rng.randrange(1, mmax + 1)
                 if m <= mmax:
                     ops.append([5, s, m])
-        elif len(spans) < 8:
+                    domc[s] = len(cspan)
+                    cspan.append(sp)               # nice() only widens
+        elif n < 8:
             ops.append([6, s])
-            spans.append(spans[s])
-            ncells += 1
-            copied = True
+            domc.append(len(cspan))
+            rngc.append(len(cspan) + 1)
+            cspan += [cspan[domc[s]], cspan[rngc[s]]]
+            shared = True
     xs = [rng.choice(allx) for _ in range(2)] + [rng.choice(allx) * rng.uniform(0.5, 1.5), _mag(rng)]
     ys = [rng.choice(ally) for _ in range(2)] + [rng.choice(ally) * rng.uniform(0.5, 1.5)]
     return _hist_case(ops, [float(x) for x in xs], [float(y) for y in ys])
@@ -471,11 +564,11 @@ def nontrivial(case, io):
     if py["k"] == "pt":
         return py["a"] != py["b"] and (py["a"] > py["b"] or py["r0"] > py["r1"] or any(
             not (min(py["a"], py["b"]) <= x <= max(py["a"], py["b"])) for x in py["xs"]))
-    seen_copy = False
+    seen_share = False
     for op in py["ops"]:
-        if op[0] == 6:
-            seen_copy = True
-        elif seen_copy and op[0] in (2, 5):
+        if op[0] in (6, 7, 8, 9):
+            seen_share = True
+        elif seen_share and op[0] in (2, 5):
             return True
     return False
 
@@ -502,32 +595,34 @@ def shrink_candidates(case):
 
 
 def _valid(ops):
-    nsc = 0
-    ncell = 0
-    for op in ops:
-        if op[0] in (0, 6):
-            if op[0] == 6 and op[1] >= nsc:
+    ids = _ids(ops)
+    for op, (nsc, ncell) in zip(ops, ids):
+        k = op[0]
+        if k in (0, 1):
+            continue
+        if k == 7:
+            if op[1] >= ncell or op[2] >= ncell:
                 return False
-            nsc += 1
-            ncell += 1
-        elif op[0] == 1:
-            ncell += 1
-        else:
-            if op[1] >= nsc:
-                return False
-            if op[0] == 3 and op[2] >= ncell:
-                return False
-    return nsc > 0
+            continue
+        if op[1] >= nsc:
+            return False
+        if k == 3 and op[2] >= ncell:
+            return False
+        if k in (8, 9) and op[2] >= nsc:
+            return False
+    return any(op[0] in (0, 7) for op in ops)
 
 
 LEVEL_TEXT = ("Machine-checked Coq theorems, for ALL rational domains/ranges/queries: end points map to end points, the map is affine, "
               "strictly monotone (direction by the orientations), invert is its exact inverse, clamped outputs stay in the range and "
-              "agree with the unclamped map inside the domain; and for ALL operation histories of the scale heap machine (new, caller "
-              "lists, domain, range, clamp, nice, copy): every scale's closures hold exactly the end points of the domain and range "
-              "it reports, domain lists are never shared, and no operation on one scale changes any observation of another (in "
-              "particular copy/original).  The model is tied to labella/scale.py by differential execution on every run.")
+              "agree with the unclamped map inside the domain; and for ALL operation histories of the scale heap machine (constructor with "
+              "default or given lists, caller lists, domain, range - of any existing list, including the lists other scales return "
+              "from domain()/range() -, clamp, nice, copy): list cells are never written after allocation, every scale's closures hold "
+              "exactly the end points of the domain and range it reports however the lists are shared, and no operation on one scale "
+              "changes any observation of another (in particular copy/original).  The model is tied to labella/scale.py by "
+              "differential execution on every run.")
 LEVEL_NOTE = ("Trusted: Coq kernel; extraction re-checked on a slice by vm_compute; the correspondence harness and its generators. "
               "Modelled, not verified: labella/scale.py; doubles are modelled by exact rationals (the inverse laws hold exactly in the "
-              "model, 'up to floating-point error' is the tie's 1e-9).  Outside the model: a caller writing into a list it passed to "
-              "range(), or passing the list returned by domain() back in as a range.")
+              "model, 'up to floating-point error' is the tie's 1e-9).  Outside the model: the caller itself writing into a list after "
+              "handing it to a scale.")
 TECHNIQUE = "Coq proof (field/lra/nra over Q; state-machine invariant by induction over operation lists) + model/implementation correspondence"
